@@ -69,6 +69,15 @@ CLAIMED = {
                      'Reference counts, weak references, freeing of the source tree and the cyclic collector are not modelled: observed on the '
                      'implementation only (snapshots around 50 operations, random orders of mutate / unregister / re-register / delete / gc).' + PARTIAL,
                 technique='Lean 4 proof (heap-alias invariant over histories) with obligations regenerated from the source + correspondence + runtime oracle', ref='6 C14'),
+    'C15': dict(text='Proved: C15_propagates (for every callback program: a fault at invocation k < m yields exactly that exception after k+1 '
+                     'invocations, none afterwards; k >= m changes nothing), C15_flattenC_refines (flatten written as a callback program computes '
+                     'flatten of the model, every tree / configuration, by mutual structural induction), C15_flatten_fault (both combined), '
+                     'C15_malformed_return_errors (never an internal error), C15_guards_cleared / C15_guards_need_cleanup; generated obligations '
+                     'C15_cxx_swallow_sites / C15_py_swallow_sites / C15_guard_cleanup_present list every catch block, PyErr_Clear, error-discarding '
+                     'CPython API call and Python except handler on every run. Callback counts and outcomes for every fault index go through the '
+                     'correspondence (flatten). Unflatten / map / compare / hash / repr faults, exception identity, reference counts and later '
+                     'behaviour: implementation oracle, exhaustive in k for ~45 operations per scenario.' + PARTIAL,
+                technique='Lean 4 proof (free-monad callback programs, refinement to the flatten model) with obligations regenerated from the source + correspondence + exhaustive fault-index oracle', ref='6 C15'),
     'C18': dict(text='Proved: C18_sort_twin / C18_sort_spec (the C++ TotalOrderSort with its restore-on-failure and the Python total_order_sorted '
                      'compute the same list for every key list), C18_namedtuple_twin, C18_structseq_twin (C++ and Python classification predicates '
                      'agree on every realisable class description), C18_one_level_twin, C18_cache_inv / C18_cache_transparent (the bounded, '
